@@ -669,10 +669,10 @@ def run(ctx):
     classes = lazy_classes(ctx.repo)
     if ctx.tier == "quick":
         pass
-    r06a(ctx, classes)
-    r06b(ctx, classes)
-    r06c(ctx)
-    r06d(ctx)
+    ctx.guard(r06a, classes)
+    ctx.guard(r06b, classes)
+    ctx.guard(r06c)
+    ctx.guard(r06d)
 
 
 SELFTEST = {
